@@ -114,7 +114,7 @@ def create_nxgraph(net, include_pipes=True, respect_status_pipes=True,
     branch_params = {k: v for k, v in kwargs.items() if any(k.startswith(par) for par in branch_kw)}
     loc = locals()
     branch_params.update({"%s_%s" % (par, bc): loc.get("%s_%s" % (par, bc)) for par in branch_kw
-                          for bc in ["pipes", "valves", "pumps", "press_controls",
+                          for bc in ["pipes", "valves", "pumps", "compressors", "press_controls",
                                      "mass_circ_pumps", "pressure_circ_pumps", "valve_pipes",
                                      "flow_controls", "heat_consumers"]})
     switch_components = {"pipes": "pi"}
